@@ -152,3 +152,13 @@ package internal
 //@   ensures[C18,C06] messages_are_deep_cloned_once: implements(m, "proto.Message") ==> calls("proto.Clone") == 1 && result1 == nil && result0 == lastresult("proto.Clone")
 //@   assert_call[C18,C06] proto.Clone : of_the_given_message: arg0 == m
 //@   modifies nothing
+
+//@ func (*ServerTransportStream).Method
+//@   ensures[C10,C12] result == sts.Name
+//@   modifies nothing
+//
+//@ func ClearMessage
+//@   ensures[C18] unsettable_destination_is_refused: called("(reflect.Value).CanSet") && !lastresult("(reflect.Value).CanSet") ==> result != nil && !called("(reflect.Value).Set")
+//@   ensures[C18] otherwise_set_to_the_zero_value_once: lastresult("(reflect.Value).CanSet") ==> result == nil && calls("(reflect.Value).Set") == 1
+//@   assert_call[C18] (reflect.Value).Set : the_destination_to_zero_of_its_own_type: arg0 == dest && arg1 == lastresult("reflect.Zero")
+//@   modifies external
